@@ -329,8 +329,9 @@ pub struct LogValue { pub filler: u8 }
 //@@ rewrite tokio::spawn(async move { pump_output_stream( stdout_stream, ToolTaskStream::Stdout, &stdout_task_id, &stdout_emitter, &mut stdout_writer, max_bytes, ) .await; stdout_writer.finish() }) ==>> spawn_pump(Tracked(&mut *life), stdout_stream, ToolTaskStream::Stdout, stdout_task_id, stdout_emitter, stdout_writer, max_bytes)
 //@@ rewrite tokio::spawn(async move { pump_output_stream( stderr_stream, ToolTaskStream::Stderr, &stderr_task_id, &stderr_emitter, &mut stderr_writer, max_bytes, ) .await; stderr_writer.finish() }) ==>> spawn_pump(Tracked(&mut *life), stderr_stream, ToolTaskStream::Stderr, stderr_task_id, stderr_emitter, stderr_writer, max_bytes)
 //@@ rewrite tokio::select! { status = child.wait() => status, _ = cancel_rx.changed() => { ==>> { if select_child_exits_first() { child.wait() } else { let _ = cancel_rx.changed();
-//@@ rewrite stdout_handle.await.unwrap_or_else(|_| { ==>> join_pump(Tracked(&mut *life), stdout_handle).unwrap_or_else(|_e: JoinError| -> TaskLogSummary {
-//@@ rewrite stderr_handle.await.unwrap_or_else(|_| { ==>> join_pump(Tracked(&mut *life), stderr_handle).unwrap_or_else(|_e: JoinError| -> TaskLogSummary {
+//@@ rewrite stdout_handle.await ==>> join_pump(Tracked(&mut *life), stdout_handle)
+//@@ rewrite stderr_handle.await ==>> join_pump(Tracked(&mut *life), stderr_handle)
+//@@ rewrite? unwrap_or_else(|_| { ==>> unwrap_or_else(|_e: JoinError| -> TaskLogSummary {
 //@@ sig
     requires started(*old(life)),
     ensures finished(*final(life)),          // [run_pipes_task.exactly_one_terminal_status_after_both_pumps_were_joined_running_at_most_once]
